@@ -13,6 +13,75 @@ func init() { register("C06", c06) }
 
 // paramIndex: v is parameter idx of fn, directly or through its spill alloc (struct params are
 // spilled to a local that is stored once from the parameter and then only loaded).
+// paramsFlowingInto: indices of the parameters of fn that v is computed from (backward slice
+// through operands, phis and local memory cells incl. elements of local arrays).
+func paramsFlowingInto(fn *ssa.Function, v ssa.Value) map[int]bool {
+	out := map[int]bool{}
+	seen := map[ssa.Value]bool{}
+	var baseAlloc func(a ssa.Value) *ssa.Alloc
+	baseAlloc = func(a ssa.Value) *ssa.Alloc {
+		switch x := a.(type) {
+		case *ssa.Alloc:
+			return x
+		case *ssa.IndexAddr:
+			return baseAlloc(x.X)
+		case *ssa.FieldAddr:
+			return baseAlloc(x.X)
+		}
+		return nil
+	}
+	var walk func(v ssa.Value, d int)
+	walk = func(v ssa.Value, d int) {
+		if v == nil || seen[v] || d > 40 {
+			return
+		}
+		seen[v] = true
+		if p, ok := v.(*ssa.Parameter); ok {
+			for i, q := range fn.Params {
+				if q == p {
+					out[i] = true
+				}
+			}
+			return
+		}
+		if u, ok := v.(*ssa.UnOp); ok && u.Op == token.MUL {
+			if al := baseAlloc(u.X); al != nil {
+				// everything stored into the cell or a part of it
+				var stores func(addr ssa.Value)
+				stores = func(addr ssa.Value) {
+					for _, ref := range referrers(addr) {
+						switch x := ref.(type) {
+						case *ssa.Store:
+							if x.Addr == addr {
+								walk(x.Val, d+1)
+							}
+						case *ssa.IndexAddr:
+							if x.X == addr {
+								stores(x)
+							}
+						case *ssa.FieldAddr:
+							if x.X == addr {
+								stores(x)
+							}
+						}
+					}
+				}
+				stores(al)
+				return
+			}
+		}
+		if in, ok := v.(ssa.Instruction); ok {
+			for _, op := range in.Operands(nil) {
+				if *op != nil {
+					walk(*op, d+1)
+				}
+			}
+		}
+	}
+	walk(v, 0)
+	return out
+}
+
 func paramIndex(fn *ssa.Function, v ssa.Value) int {
 	switch x := v.(type) {
 	case *ssa.Parameter:
@@ -149,7 +218,14 @@ func c06rules(c *Ctx, w *World, pfx string) {
 		})
 		// the result must depend on all three parameters
 		r.Check("Bucket:pure", ok, fn.Pos(), strings.Join(why, "; "))
-		r.Check("Bucket:hashes-both", ncalls >= 2, fn.Pos(), fmt.Sprintf("%d adler32.Checksum calls (name and key both hashed)", ncalls))
+		// both strings flow into a checksum (two calls, or one call applied to each in turn)
+		hashed := map[int]bool{}
+		for _, cl := range callsTo(fn, "hash/adler32.Checksum") {
+			for i := range paramsFlowingInto(fn, cl.Common().Args[0]) {
+				hashed[i] = true
+			}
+		}
+		r.Check("Bucket:hashes-both", ncalls >= 1 && hashed[0] && hashed[1], fn.Pos(), fmt.Sprintf("%d adler32.Checksum calls; parameters hashed: %v (name and key both hashed)", ncalls, hashed))
 		for i, p := range fn.Params {
 			r.Check("Bucket:uses-param-"+p.Name(), len(referrers(p)) > 0, fn.Pos(), fmt.Sprintf("parameter %d (%s) is used", i, p.Name()))
 		}
@@ -279,7 +355,7 @@ func c06rules(c *Ctx, w *World, pfx string) {
 				r.Check(key+":same-type-field", ls[0].F == F, mu.Pos(), fmt.Sprintf("element of mm.%s stored into field %s of the split", F, ls[0].F))
 				// selector of the split map
 				var base ssa.Value
-				if u, ok := outerMap.(*ssa.UnOp); ok {
+				if u, ok := stripConvVal(outerMap).(*ssa.UnOp); ok {
 					if fa, ok := u.X.(*ssa.FieldAddr); ok {
 						base = fa.X
 					}
@@ -294,7 +370,21 @@ func c06rules(c *Ctx, w *World, pfx string) {
 		splitRule(r, "Split", func(cl *ssa.Function, mmSplit ssa.Value) (bool, string) {
 			// mmSplit must denote maps[Bucket(metricName, tagsKey, count)] (written in place or through a local helper)
 			got := symRender(mmSplit, &renderEnv{root: cl}, 0)
-			want := "maps[" + Mod + ".Bucket(p0,p1,count)]"
+			// the slice Split returns and Split's count parameter, under whatever names they have
+			outer := cl
+			for outer.Parent() != nil {
+				outer = outer.Parent()
+			}
+			sliceName, countName := "?", "?"
+			eachInstr(outer, func(in ssa.Instruction) {
+				if rt, isR := in.(*ssa.Return); isR && len(rt.Results) == 1 {
+					sliceName = valueName(rt.Results[0])
+				}
+			})
+			if len(outer.Params) == 2 {
+				countName = outer.Params[1].Name()
+			}
+			want := sliceName + "[" + Mod + ".Bucket(p0,p1," + countName + ")]"
 			if got != want {
 				return false, "split map is " + got + "; shard count and slice must be Split's count and maps, selected by Bucket(metricName, tagsKey, count)"
 			}
@@ -311,10 +401,13 @@ func c06rules(c *Ctx, w *World, pfx string) {
 			})
 			r.Check("Split:maps-sized-by-count", ok, fn.Pos(), "maps = make([]*MetricMap, count)")
 			// returns maps
+			// returns the slice that was made (and that the closures fill, see the selectors)
 			okRet := false
 			eachInstr(fn, func(in ssa.Instruction) {
-				if rt, isR := in.(*ssa.Return); isR && len(rt.Results) == 1 && valueName(rt.Results[0]) == "maps" {
-					okRet = true
+				if rt, isR := in.(*ssa.Return); isR && len(rt.Results) == 1 {
+					if _, isMk := ptrOrigin(rt.Results[0]).(*ssa.MakeSlice); isMk {
+						okRet = true
+					}
 				}
 			})
 			r.Check("Split:returns-maps", okRet, fn.Pos(), "Split returns the slice it filled")
@@ -448,10 +541,14 @@ func c06rules(c *Ctx, w *World, pfx string) {
 			if iv != nil {
 				// the index must be the range index of the loop over the split result (phi + 1 compared with len(split))
 				okIdx := false
-				if b := asBinOp(iv, token.ADD); b != nil {
-					if ph, ok := b.X.(*ssa.Phi); ok && ph.Comment == "rangeindex" {
-						okIdx = true
-					}
+				var ph *ssa.Phi
+				if p, ok := iv.(*ssa.Phi); ok {
+					ph = p
+				} else if b := asBinOp(iv, token.ADD); b != nil {
+					ph, _ = b.X.(*ssa.Phi)
+				}
+				if ph != nil && loopCoversSlice(ph, split) {
+					okIdx = true
 				}
 				r.Check("dispatch:index-is-range-index", okIdx, in.Pos(), "index "+pathOf(iv)+" must be the range key over the split result")
 			}
